@@ -14,6 +14,7 @@ import (
 	"strconv"
 	"strings"
 	"sync"
+	"syscall"
 	"testing"
 	"time"
 
@@ -27,7 +28,7 @@ import (
 
 // c15Script says what the source of one list does during one refresh.
 type c15Script struct {
-	Kind    string `json:"kind"` // ok, status, close-early, cut, refused, file-ok, file-missing, file-dir, file-unsafe
+	Kind    string `json:"kind"` // ok, rename-fail, status, close-early, cut, refused, file-ok, file-missing, file-dir, file-unsafe
 	Content string `json:"content,omitempty"`
 	Status  int    `json:"status,omitempty"`
 	Cut     int    `json:"cut,omitempty"`
@@ -37,7 +38,7 @@ type c15Script struct {
 // reader is obtained at all; otherwise data and whether it ends in an error.
 func (s c15Script) delivered() (ok bool, data string, readErr bool) {
 	switch s.Kind {
-	case "ok", "file-ok":
+	case "ok", "file-ok", "rename-fail":
 		return true, s.Content, false
 	case "cut":
 		return true, s.Content[:s.Cut], true
@@ -47,19 +48,40 @@ func (s c15Script) delivered() (ok bool, data string, readErr bool) {
 	return false, "", false
 }
 
-type c15List struct {
-	ID      int64 `json:"id"`
-	Allow   bool  `json:"allow"`
-	Enabled bool  `json:"enabled"`
-	Local   bool  `json:"local"`
+// outcome is the Gallina term for what the source does.
+func (s c15Script) outcome() string {
+	okReader, data, readErr := s.delivered()
+	switch {
+	case !okReader:
+		return "OOpenErr"
+	case s.Kind == "rename-fail":
+		return vfApp("ORenameFail", vfBytes(data))
+	}
+	return vfApp("OBody", vfBytes(data), vfBool(readErr))
 }
 
+type c15List struct {
+	ID      int64  `json:"id"`
+	Allow   bool   `json:"allow"`
+	Enabled bool   `json:"enabled"`
+	Local   bool   `json:"local"`
+	Name    string `json:"name"`
+}
+
+// c15Step is one refresh (Set == nil) or one set_url call that keeps the URL.
 type c15Step struct {
 	Block   bool                 `json:"block"`
 	Allow   bool                 `json:"allow"`
 	Force   bool                 `json:"force"`
 	Due     []int64              `json:"due"`
 	Scripts map[string]c15Script `json:"scripts"`
+	Set     *c15Set              `json:"set,omitempty"`
+}
+
+type c15Set struct {
+	ID      int64  `json:"id"`
+	Name    string `json:"name"`
+	Enabled bool   `json:"enabled"`
 }
 
 type c15Hist struct {
@@ -73,11 +95,11 @@ type c15Server struct {
 	mu      sync.Mutex
 	scripts map[string]c15Script
 	url     string
-	hits    map[string]int
+	tmpDir  string
 }
 
 func c15NewServer(t *testing.T) *c15Server {
-	s := &c15Server{scripts: map[string]c15Script{}, hits: map[string]int{}}
+	s := &c15Server{scripts: map[string]c15Script{}}
 	l, err := net.Listen("tcp", "127.0.0.1:0")
 	if err != nil {
 		t.Fatal(err)
@@ -93,12 +115,21 @@ func (s *c15Server) serve(w http.ResponseWriter, r *http.Request) {
 	id := strings.TrimPrefix(r.URL.Path, "/l/")
 	s.mu.Lock()
 	sc, ok := s.scripts[id]
-	s.hits[id]++
+	tmpDir := s.tmpDir
 	s.mu.Unlock()
 	if !ok {
 		sc = c15Script{Kind: "status", Status: 410}
 	}
 	switch sc.Kind {
+	case "rename-fail":
+		// The pending file of this list exists by now (it is created before
+		// the request is sent); take it away, so that replacing the list's
+		// file with it fails.  TMPDIR is private to this test process.
+		m, _ := filepath.Glob(filepath.Join(tmpDir, "."+id+".txt*"))
+		for _, p := range m {
+			_ = os.Remove(p)
+		}
+		fallthrough
 	case "ok":
 		w.Header().Set("Content-Type", "text/plain")
 		_, _ = io.WriteString(w, sc.Content)
@@ -128,7 +159,7 @@ func c15ListText(r *vfRand) string {
 		case 0:
 			b.WriteString("# comment")
 		case 1:
-			b.WriteString("! Title: T" + strconv.Itoa(r.Intn(3)))
+			b.WriteString("! Title: " + vfPick(r, []string{"T0", "T1", " Spaced  Title ", ""}))
 		case 2:
 			b.WriteString("")
 		case 3:
@@ -145,26 +176,38 @@ func c15ListText(r *vfRand) string {
 	return s
 }
 
+// c15HTMLPrefixes are lines that write nothing, so that an HTML head after
+// them is still the first thing the parser could write.
+var c15HTMLPrefixes = []string{"", "\n", "\r\n\r\n", "# x\n", "! Title: Portal\n", " \t \n", "  \n", "\n# x\r\n  \n! y\n"}
+
 func c15BadText(r *vfRand) string {
 	good := "||" + vfPick(r, c15Probes) + "^\n"
-	switch r.Intn(5) {
+	switch r.Intn(6) {
 	case 0:
-		return "<!DOCTYPE html>\n<html><body>captive portal " + good + "</body></html>\n"
+		return vfPick(r, c15HTMLPrefixes) + "<!DOCTYPE html>\n<html><body>captive portal " + good + "</body></html>\n"
 	case 1:
-		return "\n# x\n  <HTML>\n" + good
+		return vfPick(r, c15HTMLPrefixes) + vfPick(r, []string{"  <HTML>\n", "<html lang=\"en\">\r\n", "\t<!doctype html>", "<hTmL"}) + good
 	case 2:
 		return good + "\x00\x01\x02binary\n" + good
 	case 3:
 		return good + "||p2.example^\n\x7fELF\n"
+	case 4:
+		return vfPick(r, c15HTMLPrefixes) + "\x1f\x8b\x08\x00gzip\n" + good
 	}
 	return good + good + "ok\x1b[0m\n"
 }
 
-func c15GenScript(r *vfRand, l c15List) c15Script {
+func c15GenScript(r *vfRand, l c15List, pool []string) c15Script {
+	text := func() string {
+		if r.Chance(3, 4) {
+			return vfPick(r, pool)
+		}
+		return c15ListText(r)
+	}
 	if l.Local {
 		switch k := r.Intn(10); {
 		case k < 5:
-			return c15Script{Kind: "file-ok", Content: c15ListText(r)}
+			return c15Script{Kind: "file-ok", Content: text()}
 		case k < 6:
 			return c15Script{Kind: "file-ok", Content: c15BadText(r)}
 		case k < 8:
@@ -172,21 +215,23 @@ func c15GenScript(r *vfRand, l c15List) c15Script {
 		case k < 9:
 			return c15Script{Kind: "file-dir"}
 		}
-		return c15Script{Kind: "file-unsafe", Content: c15ListText(r)}
+		return c15Script{Kind: "file-unsafe", Content: text()}
 	}
-	switch k := r.Intn(20); {
-	case k < 9:
-		return c15Script{Kind: "ok", Content: c15ListText(r)}
-	case k < 11:
+	switch k := r.Intn(22); {
+	case k < 10:
+		return c15Script{Kind: "ok", Content: text()}
+	case k < 12:
 		return c15Script{Kind: "ok", Content: c15BadText(r)}
-	case k < 13:
-		return c15Script{Kind: "status", Status: vfPick(r, []int{404, 500, 204, 301})}
 	case k < 14:
-		return c15Script{Kind: "close-early"}
+		return c15Script{Kind: "status", Status: vfPick(r, []int{404, 500, 204, 301})}
 	case k < 15:
+		return c15Script{Kind: "close-early"}
+	case k < 16:
 		return c15Script{Kind: "refused"}
+	case k < 18:
+		return c15Script{Kind: "rename-fail", Content: text()}
 	}
-	c := c15ListText(r)
+	c := text()
 	for len(c) == 0 {
 		c = c15ListText(r)
 	}
@@ -210,13 +255,27 @@ func c15GenScript(r *vfRand, l c15List) c15Script {
 func c15GenHist(r *vfRand) (h c15Hist) {
 	nb := int(r.Range(1, 2))
 	na := int(r.Range(0, 1))
+	name := func(id int64) string {
+		if r.Chance(1, 3) {
+			return ""
+		}
+		return fmt.Sprintf("list %d", id)
+	}
 	for i := 0; i < nb; i++ {
-		h.Lists = append(h.Lists, c15List{ID: int64(i + 1), Enabled: !r.Chance(1, 8), Local: r.Chance(1, 5)})
+		h.Lists = append(h.Lists, c15List{ID: int64(i + 1), Enabled: !r.Chance(1, 8), Local: r.Chance(1, 5), Name: name(int64(i + 1))})
 	}
 	for i := 0; i < na; i++ {
-		h.Lists = append(h.Lists, c15List{ID: int64(i + 11), Allow: true, Enabled: !r.Chance(1, 8), Local: r.Chance(1, 5)})
+		h.Lists = append(h.Lists, c15List{ID: int64(i + 11), Allow: true, Enabled: !r.Chance(1, 8), Local: r.Chance(1, 5), Name: name(int64(i + 11))})
 	}
-	n := int(r.Range(2, 7))
+	// Two or three contents per list which its source keeps coming back to
+	// (A, A, B, B, A ...), so that unchanged and returning checksums are common.
+	pools := map[int64][]string{}
+	for _, l := range h.Lists {
+		for k := int(r.Range(2, 3)); k > 0; k-- {
+			pools[l.ID] = append(pools[l.ID], c15ListText(r))
+		}
+	}
+	n := int(r.Range(2, 8))
 	var last = map[int64]c15Script{}
 	for i := 0; i < n; i++ {
 		st := c15Step{Block: !r.Chance(1, 6), Allow: !r.Chance(1, 6), Force: r.Chance(1, 2), Scripts: map[string]c15Script{}}
@@ -224,13 +283,17 @@ func c15GenHist(r *vfRand) (h c15Hist) {
 			if r.Chance(2, 3) {
 				st.Due = append(st.Due, l.ID)
 			}
-			sc := c15GenScript(r, l)
+			sc := c15GenScript(r, l, pools[l.ID])
 			if prev, ok := last[l.ID]; ok && r.Chance(1, 5) {
 				// Serve the same thing again (same checksum).
 				sc = prev
 			}
 			last[l.ID] = sc
 			st.Scripts[strconv.FormatInt(l.ID, 10)] = sc
+		}
+		if r.Chance(1, 4) {
+			l := vfPick(r, h.Lists)
+			st.Set = &c15Set{ID: l.ID, Enabled: r.Chance(1, 2), Name: vfPick(r, []string{l.Name, l.Name, "renamed", ""})}
 		}
 		h.Steps = append(h.Steps, st)
 	}
@@ -240,9 +303,22 @@ func c15GenHist(r *vfRand) (h c15Hist) {
 type c15Obs struct {
 	file    []byte
 	exists  bool
+	ino     uint64
 	count   int
 	sum     uint32
-	verdict []int
+	name    string
+	enabled bool
+}
+
+// c15Rules returns the probe names for which the stored text has a rule.
+func c15Rules(file []byte) map[string]bool {
+	m := map[string]bool{}
+	for _, ln := range strings.Split(string(file), "\n") {
+		if strings.HasPrefix(ln, "||") && strings.HasSuffix(ln, "^") {
+			m[ln[2:len(ln)-1]] = true
+		}
+	}
+	return m
 }
 
 func c15Run(t *testing.T, out *vfOut, srv *c15Server, h c15Hist, forced ...string) {
@@ -269,7 +345,7 @@ func c15Run(t *testing.T, out *vfOut, srv *c15Server, h c15Hist, forced ...strin
 		SafeFSPatterns:             []string{filepath.Join(srcDir, "*.txt")},
 	}
 	for _, l := range h.Lists {
-		f := FilterYAML{Enabled: l.Enabled, URL: urlOf(l), Name: fmt.Sprintf("list %d", l.ID), Filter: Filter{ID: rulelist.URLFilterID(l.ID)}, white: l.Allow}
+		f := FilterYAML{Enabled: l.Enabled, URL: urlOf(l), Name: l.Name, Filter: Filter{ID: rulelist.URLFilterID(l.ID)}, white: l.Allow}
 		if l.Allow {
 			conf.WhitelistFilters = append(conf.WhitelistFilters, f)
 		} else {
@@ -324,28 +400,62 @@ func c15Run(t *testing.T, out *vfOut, srv *c15Server, h c15Hist, forced ...strin
 	}
 	observe := func() map[int64]c15Obs {
 		m := map[int64]c15Obs{}
-		vs := verdicts()
 		for _, l := range h.Lists {
 			f := find(l.ID)
-			o := c15Obs{count: f.RulesCount, sum: f.checksum, verdict: vs}
+			o := c15Obs{count: f.RulesCount, sum: f.checksum, name: f.Name, enabled: f.Enabled}
 			b, rerr := os.ReadFile(f.Path(dir))
 			if rerr == nil {
 				o.file, o.exists = b, true
+				if fi, serr := os.Stat(f.Path(dir)); serr == nil {
+					o.ino = fi.Sys().(*syscall.Stat_t).Ino
+				}
 			}
 			m[l.ID] = o
 		}
 		return m
 	}
+	// The rules the enabled lists' files hold, as verdicts: the rules that
+	// ought to be in force.
+	expected := func(obs map[int64]c15Obs) (vs []int) {
+		for _, p := range c15Probes {
+			v := 0
+			for _, l := range h.Lists {
+				o := obs[l.ID]
+				if !o.enabled || !o.exists || !c15Rules(o.file)[p] {
+					continue
+				}
+				if l.Allow {
+					v = 2
+				} else if v == 0 {
+					v = 1
+				}
+			}
+			vs = append(vs, v)
+		}
+		return vs
+	}
+	rewritten := func(b, a c15Obs) bool { return b.exists != a.exists || b.ino != a.ino }
+	same := func(b, a c15Obs) bool {
+		return b.exists == a.exists && bytes.Equal(b.file, a.file) && b.ino == a.ino && b.count == a.count &&
+			b.sum == a.sum && b.name == a.name && b.enabled == a.enabled
+	}
+	parseOf := func(data []byte) (res *rulelist.ParseResult, norm []byte, perr error) {
+		var sink bytes.Buffer
+		res, perr = rulelist.NewParser().Parse(&sink, bytes.NewReader(data), make([]byte, rulelist.DefaultRuleBufSize))
+		return res, sink.Bytes(), perr
+	}
 
-	prev := observe()
+	prev, prevV := observe(), verdicts()
 	var steps []string
 	nontrivial := false
+	seen := map[int64][]uint32{} // checksums stored so far, per list
 	for _, st := range h.Steps {
 		// Arrange the sources.
 		srv.mu.Lock()
 		for k := range srv.scripts {
 			delete(srv.scripts, k)
 		}
+		srv.tmpDir = os.TempDir()
 		srv.mu.Unlock()
 		due := map[int64]bool{}
 		for _, id := range st.Due {
@@ -360,7 +470,7 @@ func c15Run(t *testing.T, out *vfOut, srv *c15Server, h c15Hist, forced ...strin
 			} else {
 				f.LastUpdated = time.Now()
 			}
-			if l.Enabled && (st.Force || due[l.ID]) && ((l.Allow && st.Allow) || (!l.Allow && st.Block)) {
+			if st.Set == nil && f.Enabled && (st.Force || due[l.ID]) && ((l.Allow && st.Allow) || (!l.Allow && st.Block)) {
 				attempted[l.ID] = true
 			}
 			p := filepath.Join(srcDir, fmt.Sprintf("list%d.txt", l.ID))
@@ -368,7 +478,7 @@ func c15Run(t *testing.T, out *vfOut, srv *c15Server, h c15Hist, forced ...strin
 			f.URL = urlOf(l)
 			switch sc.Kind {
 			case "refused":
-				f.URL = refusedURL + "/l/x"
+				f.URL = refusedURL + "/l/x" + strconv.FormatInt(l.ID, 10)
 			case "file-ok":
 				_ = os.WriteFile(p, []byte(sc.Content), 0o644)
 			case "file-dir":
@@ -382,15 +492,135 @@ func c15Run(t *testing.T, out *vfOut, srv *c15Server, h c15Hist, forced ...strin
 				srv.mu.Unlock()
 			}
 		}
+		inStepBefore := fmt.Sprint(expected(prev)) == fmt.Sprint(prevV)
+
+		if st.Set != nil {
+			// set_url with the URL kept: filterSetProperties, then what
+			// handleFilteringSetURL does with the result (engine rebuilt
+			// synchronously here).
+			var target c15List
+			for _, l := range h.Lists {
+				if l.ID == st.Set.ID {
+					target = l
+				}
+			}
+			setURL := srv.url + "/l/none"
+			if target.ID != 0 {
+				setURL = find(target.ID).URL
+			} else {
+				// No such list: the call is refused and nothing changes.
+				target.ID = st.Set.ID
+				classes["set-unknown-list"] = true
+			}
+			sc := st.Scripts[strconv.FormatInt(target.ID, 10)]
+			var restart bool
+			var serr error
+			var pan any
+			func() {
+				defer func() { pan = recover() }()
+				restart, serr = d.filterSetProperties(setURL, FilterYAML{Enabled: st.Set.Enabled, Name: st.Set.Name, URL: setURL}, target.Allow)
+				if serr == nil && restart {
+					d.EnableFilters(false)
+				}
+			}()
+			if pan != nil {
+				bad("C15/set-panic", fmt.Sprintf("set_url panicked: %v", pan))
+			}
+			cur, curV := observe(), verdicts()
+
+			// Monitor.
+			b, a := prev[target.ID], cur[target.ID]
+			for _, l := range h.Lists {
+				if l.ID != target.ID && !same(prev[l.ID], cur[l.ID]) {
+					bad("C15/set-changed-other-list", fmt.Sprintf("set_url on list %d changed list %d", target.ID, l.ID))
+				}
+			}
+			okReader, data, readErr := sc.delivered()
+			srcRes, srcNorm, srcErr := parseOf([]byte(data))
+			srcFails := !okReader || readErr || srcErr != nil || sc.Kind == "rename-fail"
+			switch {
+			case serr != nil:
+				classes["set-failed"] = true
+				if !same(b, a) || fmt.Sprint(prevV) != fmt.Sprint(curV) {
+					bad("C15/failed-set-changed-state", fmt.Sprintf("set_url on list %d failed (%v) but the list or the verdicts changed: %+v -> %+v, %v -> %v", target.ID, serr, b, a, prevV, curV))
+				}
+				if b.exists {
+					nontrivial = true
+				}
+			case !st.Set.Enabled:
+				classes["set-disable"] = true
+				if b.enabled {
+					classes["set-disable-enabled-list"] = true
+					nontrivial = true
+				}
+				if a.enabled || a.count != 0 || rewritten(b, a) || !bytes.Equal(b.file, a.file) {
+					bad("C15/disable-wrong", fmt.Sprintf("list %d disabled: enabled %v, count %d, file %q -> %q", target.ID, a.enabled, a.count, b.file, a.file))
+				}
+			case b.enabled:
+				classes["set-name-only"] = true
+				if !a.enabled || a.count != b.count || a.sum != b.sum || rewritten(b, a) || !bytes.Equal(b.file, a.file) {
+					bad("C15/rename-changed-list", fmt.Sprintf("list %d only renamed but changed: %+v -> %+v", target.ID, b, a))
+				}
+			default:
+				// A disabled list has been enabled.
+				nontrivial = true
+				classes["set-enable"] = true
+				if srcFails {
+					bad("C15/enable-ignored-failure", fmt.Sprintf("list %d enabled without an error although its source %s fails", target.ID, sc.Kind))
+				} else {
+					if bytes.Equal(b.file, srcNorm) && b.exists {
+						classes["set-enable-identical-bytes"] = true
+					}
+					if srcRes.RulesCount == 0 {
+						classes["set-enable-no-rules"] = true
+					}
+					if !a.enabled || a.count != srcRes.RulesCount {
+						bad("C15/enable-wrong-meta", fmt.Sprintf("list %d enabled with source %q: enabled %v, count %d, want %d", target.ID, data, a.enabled, a.count, srcRes.RulesCount))
+					}
+				}
+			}
+			if serr == nil && st.Set.Name != "" && a.name != st.Set.Name {
+				bad("C15/set-name-wrong", fmt.Sprintf("list %d: name %q after setting %q", target.ID, a.name, st.Set.Name))
+			}
+			if serr == nil && inStepBefore && fmt.Sprint(expected(cur)) != fmt.Sprint(curV) {
+				bad("C15/reenabled-list-stale-file", fmt.Sprintf("after set_url(list %d, enabled=%v) with source %s %q the enabled lists' files give verdicts %v but %v are in force (list: count %d, checksum %08x, file %q)",
+					target.ID, st.Set.Enabled, sc.Kind, data, expected(cur), curV, a.count, a.sum, a.file))
+			}
+			for i, v := range curV {
+				if v != 0 {
+					classes[map[int]string{1: "verdict-blocked", 2: "verdict-allowed", 9: "verdict-error"}[v]] = true
+				}
+				if st.Set.Enabled && !b.enabled && serr == nil && v != prevV[i] {
+					classes["set-enable-changes-verdict"] = true
+				}
+				if !st.Set.Enabled && b.enabled && v != prevV[i] {
+					classes["set-disable-changes-verdict"] = true
+				}
+			}
+
+			var obs, vs []string
+			for _, l := range h.Lists {
+				obs = append(obs, c15ObsTerm(l.ID, prev[l.ID], cur[l.ID]))
+			}
+			for _, v := range curV {
+				vs = append(vs, vfN(uint64(v)))
+			}
+			steps = append(steps, vfApp("RSet", vfBool(target.Allow), vfN(uint64(target.ID)), vfBytes(st.Set.Name), vfBool(st.Set.Enabled),
+				sc.outcome(), vfBool(restart), vfBool(serr != nil), vfList("lobs", obs), vfList("N", vs)))
+			prev, prevV = cur, curV
+			continue
+		}
+
 		var pan any
+		var netErr bool
 		func() {
 			defer func() { pan = recover() }()
-			d.tryRefreshFilters(st.Block, st.Allow, st.Force)
+			_, netErr, _ = d.tryRefreshFilters(st.Block, st.Allow, st.Force)
 		}()
 		if pan != nil {
 			bad("C15/refresh-panic", fmt.Sprintf("refresh panicked: %v", pan))
 		}
-		cur := observe()
+		cur, curV := observe(), verdicts()
 
 		// Monitor: the property on what happened, independent of the model.
 		allFailed := true
@@ -398,25 +628,42 @@ func c15Run(t *testing.T, out *vfOut, srv *c15Server, h c15Hist, forced ...strin
 			sc := st.Scripts[strconv.FormatInt(l.ID, 10)]
 			okReader, data, readErr := sc.delivered()
 			failing := !okReader || readErr
+			var srcRes *rulelist.ParseResult
+			var srcNorm []byte
 			if okReader && !readErr {
 				// Content problems the property lists: HTML or binary.
-				var sink bytes.Buffer
-				_, perr := rulelist.NewParser().Parse(&sink, strings.NewReader(data), make([]byte, rulelist.DefaultRuleBufSize))
+				var perr error
+				srcRes, srcNorm, perr = parseOf([]byte(data))
 				failing = perr != nil
 				if failing {
 					classes["bad-content"] = true
+					if i := strings.Index(strings.ToLower(data), "<html"); i > 0 && strings.TrimSpace(data[:i]) != data[:i] || strings.HasPrefix(data, "#") || strings.HasPrefix(data, "!") {
+						classes["html-after-unwritten-lines"] = true
+					}
 				}
 			}
+			renameFail := sc.Kind == "rename-fail" && !failing
 			b, a := prev[l.ID], cur[l.ID]
-			if !attempted[l.ID] || failing {
-				if b.exists != a.exists || !bytes.Equal(b.file, a.file) {
+			if !attempted[l.ID] || failing || renameFail {
+				if rewritten(b, a) || !bytes.Equal(b.file, a.file) {
 					bad("C15/failed-refresh-changed-file", fmt.Sprintf("list %d: source %s, but the stored file changed from %q to %q", l.ID, sc.Kind, b.file, a.file))
 				}
-				if b.count != a.count || b.sum != a.sum {
-					bad("C15/failed-refresh-changed-meta", fmt.Sprintf("list %d: source %s, but count/checksum changed from %d/%08x to %d/%08x", l.ID, sc.Kind, b.count, b.sum, a.count, a.sum))
+				if b.count != a.count || b.sum != a.sum || b.name != a.name || b.enabled != a.enabled {
+					key := "C15/failed-refresh-changed-meta"
+					if renameFail && attempted[l.ID] {
+						key = "C15/rename-failure-changed-meta"
+					}
+					bad(key, fmt.Sprintf("list %d: source %s, but name/count/checksum changed from %q/%d/%08x to %q/%d/%08x", l.ID, sc.Kind, b.name, b.count, b.sum, a.name, a.count, a.sum))
 				}
 				if attempted[l.ID] {
 					classes["fail-"+sc.Kind] = true
+					if renameFail {
+						if netErr {
+							classes["rename-fail-all-failed"] = true
+						} else {
+							classes["rename-fail-beside-success"] = true
+						}
+					}
 					if sc.Kind == "cut" {
 						switch {
 						case sc.Cut == 0:
@@ -432,44 +679,82 @@ func c15Run(t *testing.T, out *vfOut, srv *c15Server, h c15Hist, forced ...strin
 				}
 			} else {
 				allFailed = false
-				if bytes.Equal(b.file, a.file) && b.exists == a.exists {
-					classes["ok-same-checksum"] = true
+				// What is stored now, by the harness's own parse of it.
+				stRes, _, stErr := parseOf(b.file)
+				how := ""
+				if st.Force {
+					how = "-forced"
 				} else {
+					how = "-scheduled"
+				}
+				if l.Allow {
+					how += "-allow"
+				} else {
+					how += "-block"
+				}
+				if b.exists && stErr == nil && stRes.Checksum == srcRes.Checksum {
+					classes["ok-same-checksum"] = true
+					classes["same-checksum"+how] = true
+					if rewritten(b, a) {
+						bad("C15/same-checksum-rewritten", fmt.Sprintf("list %d: the source delivered %q, whose checksum %08x is that of the stored file, but the file was replaced", l.ID, data, srcRes.Checksum))
+					}
+				} else if b.exists || len(srcNorm) > 0 {
 					classes["ok-updated"] = true
+					classes["updated"+how] = true
 					nontrivial = true
+					if !a.exists || !bytes.Equal(a.file, srcNorm) || !rewritten(b, a) {
+						bad("C15/successful-refresh-not-stored", fmt.Sprintf("list %d: the source delivered %q (normal form %q) but the stored file is %q", l.ID, data, srcNorm, a.file))
+					}
+					for _, s := range seen[l.ID] {
+						if s == srcRes.Checksum {
+							classes["content-returns-to-earlier"] = true
+						}
+					}
+					if a.name != b.name {
+						classes["title-adopted"] = true
+					}
+				}
+				if !a.exists && len(srcNorm) == 0 {
+					classes["ok-empty-no-file"] = true
+				}
+				if a.exists {
+					seen[l.ID] = append(seen[l.ID], srcRes.Checksum)
 				}
 			}
-			if attempted[l.ID] && failing && b.exists {
+			if attempted[l.ID] && (failing || renameFail) && b.exists {
 				nontrivial = true
 				classes["failed-with-existing-file"] = true
 			}
-			// Whatever is stored re-parses to itself and matches the metadata.
+			// Whatever is stored for an enabled list re-parses to itself and
+			// matches the metadata (a disabled list is unloaded: count 0).
 			if a.exists {
-				var sink bytes.Buffer
-				res, perr := rulelist.NewParser().Parse(&sink, bytes.NewReader(a.file), make([]byte, rulelist.DefaultRuleBufSize))
-				if perr != nil || !bytes.Equal(sink.Bytes(), a.file) {
-					bad("C15/stored-not-fixed-point", fmt.Sprintf("list %d: stored file %q re-parses to %q (%v)", l.ID, a.file, sink.Bytes(), perr))
-				} else if res.RulesCount != a.count || res.Checksum != a.sum {
+				res, norm, perr := parseOf(a.file)
+				if perr != nil || !bytes.Equal(norm, a.file) {
+					bad("C15/stored-not-fixed-point", fmt.Sprintf("list %d: stored file %q re-parses to %q (%v)", l.ID, a.file, norm, perr))
+				} else if a.enabled && (res.RulesCount != a.count || res.Checksum != a.sum) {
 					bad("C15/stored-meta-mismatch", fmt.Sprintf("list %d: stored file has %d rules, checksum %08x; metadata says %d, %08x", l.ID, res.RulesCount, res.Checksum, a.count, a.sum))
 				}
 			}
 			if l.Allow && attempted[l.ID] {
 				classes["allow-list"] = true
 			}
-			if !l.Enabled {
+			if !a.enabled {
 				classes["disabled-list"] = true
 			}
 		}
 		if allFailed {
-			for _, l := range h.Lists {
-				if fmt.Sprint(prev[l.ID].verdict) != fmt.Sprint(cur[l.ID].verdict) {
-					bad("C15/failed-refresh-changed-verdicts", fmt.Sprintf("nothing was refreshed successfully but verdicts changed from %v to %v", prev[l.ID].verdict, cur[l.ID].verdict))
-				}
-				break
+			if fmt.Sprint(prevV) != fmt.Sprint(curV) {
+				bad("C15/failed-refresh-changed-verdicts", fmt.Sprintf("nothing was refreshed successfully but verdicts changed from %v to %v", prevV, curV))
 			}
 			if len(attempted) > 0 {
 				classes["all-failed"] = true
 			}
+		}
+		if !netErr && inStepBefore && fmt.Sprint(expected(cur)) != fmt.Sprint(curV) {
+			bad("C15/engine-out-of-step", fmt.Sprintf("after a refresh without a network error the enabled lists' files give verdicts %v but %v are in force", expected(cur), curV))
+		}
+		if netErr && fmt.Sprint(expected(cur)) != fmt.Sprint(curV) {
+			classes["network-error-files-ahead-of-engine"] = true
 		}
 		if st.Force {
 			classes["forced"] = true
@@ -484,31 +769,24 @@ func c15Run(t *testing.T, out *vfOut, srv *c15Server, h c15Hist, forced ...strin
 		}
 		for _, l := range h.Lists {
 			sc := st.Scripts[strconv.FormatInt(l.ID, 10)]
-			okReader, data, readErr := sc.delivered()
-			o := "OOpenErr"
-			if okReader {
-				o = vfApp("OBody", vfBytes(data), vfBool(readErr))
-			}
-			ocs = append(ocs, vfPair(vfN(uint64(l.ID)), o))
-			a := cur[l.ID]
-			obs = append(obs, vfPair(vfPair(vfPair(vfN(uint64(l.ID)), vfOpt("list N", a.exists, vfBytes(string(a.file)))),
-				vfN(uint64(a.count))), vfN(uint64(a.sum))))
+			ocs = append(ocs, vfPair(vfN(uint64(l.ID)), sc.outcome()))
+			obs = append(obs, c15ObsTerm(l.ID, prev[l.ID], cur[l.ID]))
 		}
 		var vs []string
-		for _, v := range cur[h.Lists[0].ID].verdict {
+		for _, v := range curV {
 			vs = append(vs, vfN(uint64(v)))
 			if v != 0 {
 				classes[map[int]string{1: "verdict-blocked", 2: "verdict-allowed", 9: "verdict-error"}[v]] = true
 			}
 		}
 		steps = append(steps, vfApp("RStep", vfBool(st.Block), vfBool(st.Allow), vfBool(st.Force),
-			vfList("N", dueS), vfList("N * outcome", ocs), vfList("N * option (list N) * N * N", obs), vfList("N", vs)))
-		prev = cur
+			vfList("N", dueS), vfList("N * outcome", ocs), vfList("lobs", obs), vfList("N", vs)))
+		prev, prevV = cur, curV
 	}
 
 	var bl, al, probes []string
 	for _, l := range h.Lists {
-		it := vfPair(vfN(uint64(l.ID)), vfBool(l.Enabled))
+		it := vfPair(vfPair(vfN(uint64(l.ID)), vfBool(l.Enabled)), vfBytes(l.Name))
 		if l.Allow {
 			al = append(al, it)
 		} else {
@@ -524,7 +802,7 @@ func c15Run(t *testing.T, out *vfOut, srv *c15Server, h c15Hist, forced ...strin
 	}
 	sort.Strings(cls)
 	out.Emit(vfCase{
-		Coq:        vfApp("CRefresh", vfList("N * bool", bl), vfList("N * bool", al), vfList("list N", probes), vfList("rstep", steps)),
+		Coq:        vfApp("CRefresh", vfList("N * bool * list N", bl), vfList("N * bool * list N", al), vfList("list N", probes), vfList("rstep", steps)),
 		Nontrivial: nontrivial,
 		Classes:    cls,
 		MonitorOK:  monOK,
@@ -534,9 +812,18 @@ func c15Run(t *testing.T, out *vfOut, srv *c15Server, h c15Hist, forced ...strin
 	})
 }
 
+func c15ObsTerm(id int64, b, a c15Obs) string {
+	return vfApp("LO", vfN(uint64(id)), vfOpt("list N", a.exists, vfBytes(string(a.file))), vfN(uint64(a.count)), vfN(uint64(a.sum)),
+		vfBytes(a.name), vfBool(a.enabled), vfBool(b.exists != a.exists || b.ino != a.ino))
+}
+
 func TestVerifC15(t *testing.T) {
 	out := vfOpen(t, "C15")
 	defer out.Close()
+	// The pending files of the lists are created in TMPDIR when it is on the
+	// same file system as the data directory; keep both private to this
+	// process, since one kind of source removes pending files.
+	t.Setenv("TMPDIR", t.TempDir())
 	srv := c15NewServer(t)
 
 	good1 := "! Title: One\n||p1.example^\r\n# c\n  ||p2.example^  \n"
@@ -546,12 +833,20 @@ func TestVerifC15(t *testing.T) {
 		return map[string]c15Script{strconv.FormatInt(id, 10): sc}
 	}
 	two := func(a, b c15Script) map[string]c15Script { return map[string]c15Script{"1": a, "11": b} }
+	blk := func(a, b c15Script) map[string]c15Script { return map[string]c15Script{"1": a, "2": b} }
 	ok := func(c string) c15Script { return c15Script{Kind: "ok", Content: c} }
 	all := []int64{1, 2, 11}
-	web := []c15List{{ID: 1, Enabled: true}}
-	both := []c15List{{ID: 1, Enabled: true}, {ID: 11, Allow: true, Enabled: true}}
+	web := []c15List{{ID: 1, Enabled: true, Name: "list 1"}}
+	both := []c15List{{ID: 1, Enabled: true, Name: "list 1"}, {ID: 11, Allow: true, Enabled: true, Name: "list 11"}}
+	pair := []c15List{{ID: 1, Enabled: true, Name: ""}, {ID: 2, Enabled: true, Name: "list 2"}}
 	step := func(sc map[string]c15Script) c15Step {
 		return c15Step{Block: true, Allow: true, Force: true, Due: all, Scripts: sc}
+	}
+	sched := func(sc map[string]c15Script) c15Step {
+		return c15Step{Block: true, Allow: true, Due: all, Scripts: sc}
+	}
+	set := func(id int64, en bool, name string, sc map[string]c15Script) c15Step {
+		return c15Step{Scripts: sc, Set: &c15Set{ID: id, Enabled: en, Name: name}}
 	}
 	// Seed-independent prelude: every failure kind after a good download.
 	var fails []c15Step
@@ -559,12 +854,16 @@ func TestVerifC15(t *testing.T) {
 		{Kind: "status", Status: 404}, {Kind: "status", Status: 500}, {Kind: "close-early"}, {Kind: "refused"},
 		{Kind: "cut", Content: good2 + good1, Cut: 0}, {Kind: "cut", Content: good2 + good1, Cut: 5},
 		{Kind: "cut", Content: good2 + good1, Cut: len(good2)}, {Kind: "cut", Content: good2, Cut: len(good2)},
-		ok("<html>\n" + good2), ok(good2 + "\x01\n"),
+		ok("<html>\n" + good2), ok(good2 + "\x01\n"), {Kind: "rename-fail", Content: good2},
 	} {
 		fails = append(fails, step(one(1, sc)))
 	}
+	// HTML heads after lines that write nothing.
+	for _, pre := range c15HTMLPrefixes {
+		fails = append(fails, step(one(1, ok(pre+"<!DOCTYPE html>\n"+good2))), step(one(1, ok(pre+" <HtMl>"))))
+	}
 	c15Run(t, out, srv, c15Hist{Lists: web, Steps: append(append([]c15Step{step(one(1, ok(good1)))}, fails...), step(one(1, ok(good1))), step(one(1, ok(good2))))})
-	c15Run(t, out, srv, c15Hist{Lists: []c15List{{ID: 1, Enabled: true, Local: true}}, Steps: []c15Step{
+	c15Run(t, out, srv, c15Hist{Lists: []c15List{{ID: 1, Enabled: true, Local: true, Name: "local"}}, Steps: []c15Step{
 		step(one(1, c15Script{Kind: "file-ok", Content: good1})), step(one(1, c15Script{Kind: "file-missing"})),
 		step(one(1, c15Script{Kind: "file-dir"})), step(one(1, c15Script{Kind: "file-unsafe", Content: good2})),
 		step(one(1, c15Script{Kind: "file-ok", Content: "<html>"})), step(one(1, c15Script{Kind: "file-ok", Content: good2})),
@@ -577,9 +876,57 @@ func TestVerifC15(t *testing.T) {
 		{Block: true, Allow: false, Due: []int64{1, 11}, Scripts: two(ok(good2), ok(good1))},
 		{Block: false, Allow: true, Force: true, Scripts: two(ok(good1), c15Script{Kind: "cut", Content: allow1, Cut: 3})},
 	}})
-	c15Run(t, out, srv, c15Hist{Lists: []c15List{{ID: 1, Enabled: false}, {ID: 2, Enabled: true}}, Steps: []c15Step{
+	c15Run(t, out, srv, c15Hist{Lists: []c15List{{ID: 1, Enabled: false, Name: "list 1"}, {ID: 2, Enabled: true, Name: "list 2"}}, Steps: []c15Step{
 		step(map[string]c15Script{"1": ok(good1), "2": ok(good2)}), step(map[string]c15Script{"1": ok(good1), "2": ok("ab\nc\n")}),
 		step(map[string]c15Script{"1": ok(good1), "2": ok("a\nbc\n")}),
+	}})
+	// The same content twice, another twice, back to the first (A A B B A):
+	// block and allow list, forced and scheduled; the first list takes its
+	// name from the title.
+	a1, b1 := "! Title: One\n||p1.example^\n", "||p1.example^\n||p2.example^\n"
+	a2, b2 := "||p2.example^\n", "! Title: Two\r\n||p3.example^\r\n"
+	for _, mk := range []func(map[string]c15Script) c15Step{step, sched} {
+		c15Run(t, out, srv, c15Hist{Lists: []c15List{{ID: 1, Enabled: true, Name: ""}, {ID: 11, Allow: true, Enabled: true, Name: "list 11"}}, Steps: []c15Step{
+			mk(two(ok(a1), ok(a2))), mk(two(ok(a1), ok(a2))), mk(two(ok(b1), ok(b2))), mk(two(ok(b1), ok(a2+"# c\n"))), mk(two(ok(a1), ok(a2))),
+			mk(two(ok("# only a comment\n"), ok(""))), mk(two(ok(""), ok("\n\n"))), mk(two(ok(a1), ok(a2))),
+		}})
+	}
+	// Replacing the pending file fails: alone (everything failed), and beside a
+	// list that is updated.
+	c15Run(t, out, srv, c15Hist{Lists: pair, Steps: []c15Step{
+		step(blk(ok(b1), ok(good2))),
+		step(blk(c15Script{Kind: "rename-fail", Content: a1}, c15Script{Kind: "status", Status: 404})),
+		step(blk(c15Script{Kind: "rename-fail", Content: b1}, ok(a2))),
+		step(blk(c15Script{Kind: "rename-fail", Content: "<html>"}, ok(good2))),
+		step(blk(c15Script{Kind: "rename-fail", Content: a1}, ok(good2+a2))),
+		step(blk(ok(b1), ok(good2+a2))),
+		step(blk(ok(a1), ok(good2+a2))),
+	}})
+	// Disable, enable again with the same bytes, with other bytes, with a
+	// failing source; rename; disable twice.
+	c15Run(t, out, srv, c15Hist{Lists: []c15List{{ID: 1, Enabled: true, Name: "list 1"}, {ID: 2, Enabled: true, Name: "list 2"}, {ID: 11, Allow: true, Enabled: true, Name: "list 11"}}, Steps: []c15Step{
+		step(map[string]c15Script{"1": ok(b1), "2": ok(good2), "11": ok(a2)}),
+		set(1, false, "list 1", one(1, ok(b1))),
+		set(1, true, "list 1", one(1, ok(b1))),
+		set(11, false, "list 11", one(11, ok(a2))),
+		set(11, false, "off", one(11, ok(a2))),
+		set(11, true, "", one(11, c15Script{Kind: "status", Status: 500})),
+		set(11, true, "", one(11, ok("<html>"))),
+		set(11, true, "", one(11, c15Script{Kind: "rename-fail", Content: a2})),
+		set(11, true, "", one(11, ok(a2))),
+		set(2, true, "renamed", one(2, ok(a1))),
+		set(1, false, "list 1", one(1, ok(b1))),
+		step(map[string]c15Script{"1": ok(a1), "2": ok(good2 + a2), "11": ok(a2)}),
+		set(1, true, "", one(1, ok(a1))),
+		set(3, true, "none", one(3, ok(a1))),
+	}})
+	// A list whose source has lost its rules while it was disabled.
+	c15Run(t, out, srv, c15Hist{Lists: pair, Steps: []c15Step{
+		step(blk(ok(b1), ok(good2))),
+		set(1, false, "x", blk(ok(b1), ok(good2))),
+		set(1, true, "x", blk(ok("# nothing here any more\n"), ok(good2))),
+		step(blk(ok("# nothing here any more\n"), ok(good2+a2))),
+		step(blk(ok(b1), ok(good2+a2))),
 	}})
 
 	r := vfNewRand(out.Seed)
